@@ -1,6 +1,9 @@
-(** C19 — a wait of the shutdown sequence that has become possible stays possible whatever else happens *)
-From IV Require Import Base.Bytes Gen.LifecyclePins Model.Lifecycle Model.LifecycleAsm Proofs.LifecycleAsm.
-Local Open Scope nat_scope.
-Theorem wait_stays_enabled : forall sh e y a y1 w, astep sh e y a = Some y1 -> wait_ok y w = true -> wait_ok y1 w = true.
-Proof. exact LifecycleAsm.wait_stays_enabled. Qed.
+(** C19 — wait_stays_enabled *)
+From Coq Require Import Lia.
+From IV Require Import Base.Bytes Gen.LifecyclePins Model.Lifecycle Model.LifecycleAsm.
+From IV Require Import Proofs.LifecycleAsm.
+Theorem wait_stays_enabled :
+  forall sh e y a y' w, astep sh e y a = Some y' -> wait_ok y w = true -> wait_settled y w ->
+    wait_ok y' w = true /\ wait_settled y' w.
+Proof. first [exact LifecycleAsm.wait_stays_enabled | intros; apply LifecycleAsm.wait_stays_enabled]. Qed.
 Print Assumptions wait_stays_enabled.
